@@ -148,13 +148,21 @@ Definition idxs (f : nat -> bool) (n : nat) : string := String.concat "," (map n
 """
 
 
-def line_shard(cases):
+FIX_FLAGS = ("word", "cond", "sxtx", "dir")      # order of the fields of Model/ParseA64.v `fixes`
+
+
+def cfg_coq(cfg):
+    """Gallina term of the configuration (which repairs the tree under test contains)"""
+    return "(mkfx %s)" % " ".join("true" if cfg[k] else "false" for k in FIX_FLAGS)
+
+
+def line_shard(cases, cfg):
     """cases: list of (line, expected).  Coq prints 'bad|unmodelled|rejected|parsed' (index lists / counts)."""
     body = ";\n".join("(%s, %s)" % (coq_str(l), coq_str(e)) for l, e in cases)
-    return SHARD_HEAD + """
+    return SHARD_HEAD + "Definition cfg : fixes := %s." % cfg_coq(cfg) + """
 Definition cases : list (string * string) := [
 %s ].
-Definition res := map (fun c => (parse_line (fst c), snd c)) cases.
+Definition res := map (fun c => (parse_line cfg (fst c), snd c)) cases.
 Definition ok (c : result * string) : bool :=
   match fst c with
   | Unm => true
